@@ -243,6 +243,55 @@ def run(F, R, tier):
                         F.loc(f, n), "append of a non-fresh object or outside the block-missing branch: duplicates an "
                         "existing (block, key) entry instead of replacing it", key="D2k|%s|%s" % (inst, nm))
 
+    # ---------------- D6 echo of the input -----------------------------------------------------------
+    R.rule("D6", "SLHA output echoes the input: the SLHAea container is written only by the readers (clear + read) and by "
+                 "fill_block_entry; every reader/filler of a model is a const member; the program hands fill_block_entry only "
+                 "the documented output blocks (SPINFO, GM2CalcOutput, LOWEN, SPhenoLowEnergy)", 4)
+    from .rules_c16 import FieldFlow
+    FW = FieldFlow(F)
+    writers, readers_const = set(), []
+    for k, f in sorted(F.functions.items()):
+        if not f["name"].startswith("gm2calc::GM2_slha_io::"):
+            continue
+        short = f["name"].split("::")[-1]
+        w = FW.direct_writes(f["body"])
+        if any(x.endswith("GM2_slha_io::data") for x in w) or \
+                any(n.get("k") == "CXXConstCastExpr" and any(y.get("k") == "MemberExpr" and str(y.get("n")).endswith("GM2_slha_io::data")
+                                                             for y in walk(n)) for n in walk(f["body"])):
+            writers.add(short)
+    allowed = {"read_from_file", "read_from_source", "read_from_stream", "fill_block_entry"}
+    R.check("D6", writers <= allowed and "fill_block_entry" in writers, "writers of GM2_slha_io::data: %s" % sorted(writers),
+            "src/gm2_slha_io.cpp", "the SLHA container is also modified by %s: input blocks may not be echoed unchanged"
+            % sorted(writers - allowed), key="D6|writers")
+    for k, f in sorted(F.functions.items()):
+        if f["name"].startswith("gm2calc::GM2_slha_io::fill") and not f["name"].endswith("fill_block_entry") and \
+                f["file"].startswith("src/gm2_slha_io"):
+            is_const = bool((f.get("method") or {}).get("const"))
+            readers_const.append((f["name"].split("::")[-1], is_const, f))
+    nonconst = sorted({n for n, c_, f_ in readers_const if not c_})
+    R.check("D6", readers_const and not nonconst, "%d fill* readers are const member functions" % len(readers_const),
+            "src/gm2_slha_io.hpp", "non-const readers: %s" % nonconst, key="D6|const")
+    blocks = {}
+    for k, f in sorted(F.functions.items()):
+        if f["file"] != "src/gm2calc.cpp":
+            continue
+        for n in walk(f["body"]):
+            if is_call(n) and str(n.get("fn") or "").endswith("GM2_slha_io::fill_block_entry"):
+                a0 = call_args(n)[0]
+                lits = [x.get("v") for x in walk(a0) if x.get("k") == "StringLiteral"]
+                nm = lits[0] if lits else None
+                if nm is None:
+                    # block name taken from the format table (std::get<0>(entry)): resolved by D2
+                    nm = "<format table>"
+                blocks.setdefault(nm, []).append(F.loc(f, n))
+    documented = {"SPINFO", "GM2CalcOutput", "LOWEN", "SPhenoLowEnergy", "<format table>"}
+    for nm, locs in sorted(blocks.items()):
+        R.check("D6", nm in documented, "gm2calc.cpp writes block %s (%d site(s))" % (nm, len(locs)), locs[0],
+                "the program writes into block %s, which is not a documented output block: an input block would be altered" % nm,
+                key="D6|block|%s" % nm)
+    if not blocks:
+        R.soft_broken("D6: no fill_block_entry call found in gm2calc.cpp")
+
     # ---------------- D4 detailed output -------------------------------------------------------
     R.rule("D4", "detailed writers: every printed 'sum' equals the sum of the printed parts of its group and every "
                  "percentage equals 100 * own component / stated reference", 12)
